@@ -203,6 +203,17 @@ func (c *ctx) compress(what string, in []byte, crc bool, parts []int, partName s
 	if c.o.Poisoned {
 		return nil, false // a spinning call is still burning CPU in this process: the case is over
 	}
+	if c.calls%200 == 17 {
+		// now and then a transfer of this process fails: a big incompressible message goes to a destination
+		// that drops after a few kB. Whatever that leaves behind must not leak into the next compression.
+		junk := lzwork.Spec{Fam: "random", Size: 9000 + 500*(c.calls%7), Seed: int64(c.calls)}.Bytes()
+		if pv := lzwork.CompressToFailingDestination(junk, c.calls%400 == 17, []int{0, 100, 4096, 5000, 8191}[(c.calls/200)%5]); pv != nil {
+			if len(c.o.Violations) < maxViolationsPerCase {
+				c.o.Violations = append(c.o.Violations, *pv)
+			}
+		}
+		c.o.Count("failed_transfers_interleaved", 1)
+	}
 	res := lzwork.Compress(in, crc, parts)
 	if res.OK() {
 		c.calls++
